@@ -22,7 +22,7 @@ def value_table(C):
                   't': tuples2, 'd': [{}, {'a': 1}, {'a': (1,), 'b': [1, 2]}, {'é': None}],
                   'dd': [{}, {'a': 1}, {'a': 1, 'b': 2, 'c': 3}, {'b': 2, 'a': 1}, {'a': 1, 'b': 3}, {'a': 1, 'c': 2}], 'ld': [[{'a': 1}, 3], [{'a': 1, 'b': 2}], [], [{'a': 1, 'b': 2}, 3]],
                   'child': ['LEAF0', 'LEAF1', 'LEAF2', 'LEAF3'],
-                  'name': ['explicit', 'Plain99', "we'ird", 'Plain3_x', 'Plain2D', 'xPlain12', '12', 'Plain00012 ', 'plain7', 'Plain12\n']},
+                  'name': ['explicit', 'Plain99', "we'ird", 'Plain3_x', 'Plain2D', 'xPlain12', 'Plain1', 'Plain123456', 'Plain00012\n', '12', 'Plain00012 ', 'plain7', 'Plain12\n']},
         'Positional': {'i': ints, 's': strs[:5], 'v': generic, 'f': floats[:5], 'name': ['explicit']},
         'KwDefault': {'i': [0, 7, 5], 'v': generic[:10], 'name': ['n1', 'KwDefault5b']},
         'Nested': {'a': ['PLAIN0', 'PLAIN1', 'PLAIN2'], 'items': lists, 'v': generic[:12] + ['LEAF2', 'LEAF3', 'NEST0', 'NEST1'], 'name': ['top', 'Nested1.2']},
@@ -71,7 +71,8 @@ def equal_vals(a, b, auto_ok=True):
             if n == 'name':
                 pre = type(a).__name__
                 import re
-                if re.match('^' + pre + '[0-9]+$', x) and re.match('^' + pre + '[0-9]+$', y):
+                # generated names are the class name followed by exactly five digits (anything else is a name somebody chose)
+                if re.fullmatch(pre + '[0-9]{5}', x) and re.fullmatch(pre + '[0-9]{5}', y):
                     continue
             if not equal_vals(x, y):
                 return False
